@@ -17,12 +17,17 @@ use crate::wrap::{Wrap, WrapShared};
 pub enum LifeEv {
     Synth,
     Ping,
+    Ping2,
 }
 
 pub struct LifeK {
     pub handles: Vec<Ping>,
     pub has_ping: bool,
     pub pending: bool,
+    /// second ping child (third sub-token)
+    pub two: bool,
+    pub handles2: Vec<Ping>,
+    pub pending2: bool,
     /// per dispatch: does before_sleep return a synthetic event
     pub plan: VecDeque<bool>,
     // ---- per dispatch observations
@@ -41,6 +46,9 @@ pub struct LifeK {
 pub struct LifeSrc {
     id: Id,
     ping: Option<PingSource>,
+    ping2: Option<PingSource>,
+    /// the last registration step fails (after the first child went into the poller)
+    fail_step2: bool,
     synth_token: Option<Token>,
 }
 
@@ -58,16 +66,28 @@ impl EventSource for LifeSrc {
             callback(LifeEv::Synth, &mut ());
             return Ok(PostAction::Continue);
         }
+        let mut act = PostAction::Continue;
         if let Some(p) = &mut self.ping {
-            let a = p.process_events(readiness, token, |(), _| callback(LifeEv::Ping, &mut ()))?;
-            return Ok(a);
+            act = p.process_events(readiness, token, |(), _| callback(LifeEv::Ping, &mut ()))?;
         }
-        Ok(PostAction::Continue)
+        if let Some(p) = &mut self.ping2 {
+            let a = p.process_events(readiness, token, |(), _| callback(LifeEv::Ping2, &mut ()))?;
+            if act == PostAction::Continue {
+                act = a;
+            }
+        }
+        Ok(act)
     }
 
     fn register(&mut self, poll: &mut Poll, tf: &mut TokenFactory) -> calloop::Result<()> {
         self.synth_token = Some(tf.token());
         if let Some(p) = &mut self.ping {
+            p.register(poll, tf)?;
+        }
+        if self.fail_step2 {
+            return Err(calloop::Error::OtherError(Box::new(crate::wrap::Scripted("register (last step)"))));
+        }
+        if let Some(p) = &mut self.ping2 {
             p.register(poll, tf)?;
         }
         Ok(())
@@ -78,12 +98,18 @@ impl EventSource for LifeSrc {
         if let Some(p) = &mut self.ping {
             p.reregister(poll, tf)?;
         }
+        if let Some(p) = &mut self.ping2 {
+            p.reregister(poll, tf)?;
+        }
         Ok(())
     }
 
     fn unregister(&mut self, poll: &mut Poll) -> calloop::Result<()> {
         self.synth_token = None;
         if let Some(p) = &mut self.ping {
+            p.unregister(poll)?;
+        }
+        if let Some(p) = &mut self.ping2 {
             p.unregister(poll)?;
         }
         Ok(())
@@ -139,7 +165,7 @@ impl EventSource for LifeSrc {
     }
 }
 
-pub fn insert_lifecycle(sim: &Sim, id: Id, with_ping: bool, synth: &[bool], script: &Script) {
+pub fn insert_lifecycle(sim: &Sim, id: Id, with_ping: bool, synth: &[bool], script: &Script, two: bool, fail_step2: bool, keep_rejected: bool) {
     let Some(h) = sim.st.borrow().handle.clone() else { return };
     if sim.st.borrow().srcs.contains_key(&id) {
         return;
@@ -152,6 +178,15 @@ pub fn insert_lifecycle(sim: &Sim, id: Id, with_ping: bool, synth: &[bool], scri
     } else {
         (vec![], None)
     };
+    let (handles2, psrc2) = if two {
+        match make_ping() {
+            Ok((p, s)) => (vec![p], Some(s)),
+            Err(_) => return,
+        }
+    } else {
+        (vec![], None)
+    };
+    let fail_step2 = fail_step2 && two;
     let sh = WrapShared::new(id);
     let cbd = Rc::new(Cell::new(0));
     let guard = crate::ops::DropCtr(cbd.clone());
@@ -159,6 +194,9 @@ pub fn insert_lifecycle(sim: &Sim, id: Id, with_ping: bool, synth: &[bool], scri
         handles,
         has_ping: with_ping,
         pending: false,
+        two,
+        handles2,
+        pending2: false,
         plan: synth.iter().copied().collect(),
         entitled: false,
         bs: 0,
@@ -172,16 +210,33 @@ pub fn insert_lifecycle(sim: &Sim, id: Id, with_ping: bool, synth: &[bool], scri
         iter_checked: false,
     });
     let src = crate::ops::new_src(id, script, k, sh.clone(), cbd);
-    let source = LifeSrc { id, ping: psrc, synth_token: None };
+    let source = LifeSrc { id, ping: psrc, ping2: psrc2, fail_step2, synth_token: None };
+    let rejected: Rc<std::cell::RefCell<Option<Box<dyn std::any::Any>>>> = Rc::new(std::cell::RefCell::new(None));
+    let rej = rejected.clone();
+    let keep_rejected = keep_rejected && two;
+    let before: Vec<u64> = if keep_rejected { crate::os::epoll_table(sim.hk.borrow().epfd).iter().map(|e| e.data).collect() } else { vec![] };
     let r = crate::ops::guarded(sim, "insert_source", || {
         h.insert_source(Wrap::new(source, sh), move |ev, _, tag: &mut Tag| {
             let _g = &guard;
             on_life(id, ev, tag);
         })
-        .map_err(|e| e.error.to_string())
+        .map_err(|e| {
+            if keep_rejected {
+                *rej.borrow_mut() = Some(Box::new(e.inserted));
+            }
+            e.error.to_string()
+        })
     });
     if let Some(r) = r {
-        crate::ops::finish_insert(sim, id, src, r, false);
+        if r.is_err() && fail_step2 {
+            sim.probe("scripted_failure");
+        }
+        crate::ops::finish_insert(sim, id, src, r, fail_step2);
+        // (the model's ping handles are gone with the rejected source's model entry: a kept
+        // source's children read as closed, so what is left in the poller stays ready)
+        if let Some(b) = rejected.borrow_mut().take() {
+            note_leaked(sim, b, &before);
+        }
     }
 }
 
@@ -209,6 +264,12 @@ pub fn on_life(id: Id, ev: LifeEv, tag: &mut Tag) {
                             viol = Some(("ping.callback_without_ping", format!("lifecycle source {}: ping child callback without a ping", id)));
                         }
                         l.pending = false;
+                    }
+                    LifeEv::Ping2 => {
+                        if !l.pending2 {
+                            viol = Some(("ping.callback_without_ping", format!("lifecycle source {}: second ping child callback without a ping", id)));
+                        }
+                        l.pending2 = false;
                     }
                 }
                 drop(st);
@@ -292,5 +353,29 @@ pub fn after_dispatch(sim: &Sim, ok: bool, waited: bool) {
         sim.violate(r, f, d);
     } else if n > 0 {
         sim.rule_ok(&["C14"], 140 + n);
+    }
+}
+
+/// The program keeps a source whose insertion failed half-way: what it had already put into the
+/// poller stays there, under the key of the slot generation that insertion used. Those keys
+/// belong to nobody from now on.
+fn note_leaked(sim: &Sim, rejected: Box<dyn std::any::Any>, before: &[u64]) {
+    let epfd = sim.hk.borrow().epfd;
+    let mut st = sim.st.borrow_mut();
+    let mut n = 0;
+    for e in crate::os::epoll_table(epfd) {
+        // what this insertion added to the poller before it failed
+        if before.contains(&e.data) {
+            continue;
+        }
+        st.leaked_keys.insert(e.data as usize);
+        st.extra_table.push((e.data, e.events, None));
+        n += 1;
+    }
+    st.kept_rejected.push(rejected);
+    drop(st);
+    if n > 0 {
+        sim.probe("registration_left_by_failed_insert");
+        sim.trace(|| format!("  kept the rejected source: {} poller entries stay behind", n));
     }
 }
